@@ -1256,12 +1256,14 @@ class Verifier(Interp):
     def prove_lemma(self, name):
         lem = self.reg.lemmas[name]
         self.reset_path()
+        self.entry_pc_len = None
         self.cur_func = "lemma." + name
         self.worklist = []
         env, vars_ = self.lemma_env(lem, "sk")
         def go():
             for i, r in enumerate(lem.requires):
                 self.assume(self.formula(r), "req.%d" % i)
+            self.entry_pc_len = len(self.st.pc)
             extra = []
             use_hyps = []
             pending_ih = []
